@@ -33,4 +33,23 @@ def broadcast (N : Nat) (subset : List Nat) : Labels → Option (List Int)
 /-- `np.tile(colors, 9)[j*n + i]` -/
 def tile9 {α : Type} (colors : List α) : List α := (List.replicate 9 colors).flatten
 
+/-! ### exact clipping of a segment against the unit cell (Liang–Barsky), the harness's `clip_fraction` -/
+
+/-- the parameters `t` with `0 ≤ a + t·δ ≤ 1`, as an interval `(lo, hi)` (empty when `lo > hi`) -/
+def tInt (a δ : Rat) : Rat × Rat :=
+  if 0 < δ then ((0 - a) / δ, (1 - a) / δ)
+  else if δ < 0 then ((1 - a) / δ, (0 - a) / δ)
+  else if 0 ≤ a ∧ a ≤ 1 then (0, 1) else (1, 0)
+
+/-- length of `[lo, hi] ∩ [u, v]` -/
+def cap (I : Rat × Rat) (u v : Rat) : Rat := max 0 (min I.2 v - max I.1 u)
+
+/-- the fraction of the segment `p + t·d`, `t ∈ [0,1]`, that lies in the closed unit cell -/
+def frac (p d : Rat × Rat) : Rat :=
+  let X := tInt p.1 d.1; let Y := tInt p.2 d.2
+  max 0 (min (min X.2 Y.2) 1 - max (max X.1 Y.1) 0)
+
+/-- the `t`-interval of the image of the segment shifted by `−k` cells along one axis -/
+def axisInt (a δ : Rat) (k : Int) : Rat × Rat := tInt (a - k) δ
+
 end Plot
